@@ -887,8 +887,8 @@ def check_ctor_case(ctx, case):
     ctx.count(f'ctor {what}')
     if want_ok and got[0] != 'ok':
         ctx.violation(case, {'why': 'a physical parameter was rejected', 'impl': got})
-    if not want_ok and got != ('err', 'ValueError'):
-        ctx.violation(case, {'why': 'a non-physical parameter was not rejected with ValueError', 'impl': got})
+    if not want_ok and got[0] != 'err':
+        ctx.violation(case, {'why': 'a non-physical parameter was not rejected', 'impl': got})
 
 
 def run_ctor_checks(ctx):
